@@ -57,8 +57,18 @@ def stubs(enum):
             raise symex.Unsupported("number parser on " + s.kind)
         if not it.branch(it.fold(symex.BOOL("(bvuge %s (_ bv%d 64))" % (s.len, k))).s, "be_u%d: enough input" % (8 * k)):
             return err()
-        v = it.fresh("wire", "(_ BitVec %d)" % (8 * k))
-        return ok(it, it.fold(BV(64, "(bvsub %s (_ bv%d 64))" % (s.len, k))).s, BV(8 * k, v))
+        off = getattr(s, "off", None)
+        if off is not None and getattr(it, "shared_input", False):
+            v = "in_b%d_%d" % (off, k)
+            it.solver.declare(v, "(_ BitVec %d)" % (8 * k))
+            if v not in it.path_syms:
+                it.path_syms.append(v)
+        else:
+            v = it.fresh("wire", "(_ BitVec %d)" % (8 * k))
+        r = ok(it, it.fold(BV(64, "(bvsub %s (_ bv%d 64))" % (s.len, k))).s, BV(8 * k, v))
+        if off is not None:
+            r.fields[0].fields[0].off = off + k
+        return r
 
     def take(it, c, a):
         return Val("takeparser", n=a[0])
